@@ -85,3 +85,16 @@ def g1_uncompressed_on_curve(rng):
     while True:
         x = rng.randrange(FP); y = fp_sqrt((x*x*x + 4) % FP)
         if y is not None: return x, y
+
+def g1_compress(x, y):
+    b = bytearray(x.to_bytes(48, "big")); b[0] |= 0x80 | (0x20 if y > (FP - 1) // 2 else 0)
+    return bytes(b)
+def g1_torsion_pairs(rng, n):
+    """pairs (T, -T) of on-curve points OUTSIDE the prime-order subgroup (compressed encodings); the first pair is the
+    order-3 point (0, 2) and its negative, then random curve points.  T + (-T) is the identity, so a decoder that
+    checks the subgroup only on a sum of points accepts them."""
+    out = [(g1_compress(0, 2), g1_compress(0, FP - 2))]
+    for _ in range(n):
+        x, y = g1_uncompressed_on_curve(rng)
+        out.append((g1_compress(x, y), g1_compress(x, FP - y)))
+    return out
